@@ -32,5 +32,10 @@ func (c *Input) validateInputs(xs []tensor.Tensor) (err error) {
 		return
 	}
 
+	if c.SeedFunc == nil {
+		err = fmt.Errorf("expected 'SeedFunc' to be set")
+		return
+	}
+
 	return nil
 }
